@@ -580,6 +580,9 @@ func runC15Replay(c *Ctx) {
 		if err != nil {
 			raw = []byte(a)
 		}
+		if replayArgv(c, raw) { // a recorded case of the c15argv stream (argv.go)
+			continue
+		}
 		var d cmdDesc
 		if err := json.Unmarshal(raw, &d); err != nil {
 			c.Violation("bad replay descriptor: %v", err)
